@@ -34,6 +34,10 @@ fn main() {
     let to: usize = args.get(3).and_then(|s| s.parse().ok()).unwrap_or(usize::MAX);
 
     install_panic_hook();
+    #[cfg(feature = "guardalloc")]
+    if let Ok(m) = std::env::var("NBD_GUARD") {
+        guard_alloc::set_mode(&m);
+    }
 
     let reader: Box<dyn BufRead> = if path == "-" {
         Box::new(std::io::BufReader::new(std::io::stdin()))
@@ -115,6 +119,8 @@ fn main() {
         }
         writeln!(w, "{}", s).unwrap();
     }
+    #[cfg(feature = "guardalloc")]
+    writeln!(w, "# guard_allocs {}", guard_alloc::allocs()).unwrap();
     writeln!(w, "END {}", idx).unwrap();
     w.flush().unwrap();
 }
